@@ -46,30 +46,3 @@ def shrink_candidates(c):
 def _shrink_candidates(c):
     return shrink_file(c)
 
-
-def _upper_target_with_address(c):
-    """an NS record whose target (rdata = one wire name) has an upper-case letter inside a label,
-    while an address record is declared for the same name (compared case-insensitively)"""
-    recs = [r for l in c["lines"] for r in l["recs"]]
-    addr_owners = {bytes(r["owner"]).lower() for r in recs if r["type"] in (1, 28) and not r["wild"]}
-    for r in recs:
-        if r["type"] != 2:
-            continue
-        rd, i, upper = r["rdata"], 0, False
-        while i < len(rd) and rd[i] != 0:
-            n = rd[i]
-            upper = upper or any(65 <= x <= 90 for x in rd[i + 1:i + 1 + n])
-            i += 1 + n
-        if upper and bytes(rd).lower() in addr_owners:
-            return True
-    return False
-
-
-def known_finding(c, findings):
-    """F24: no glue for an NS target written with upper-case letters (the additional-section lookup
-    uses the target's exact-case key, owner keys are lower-cased).  Only files of the generator class
-    made for this shape are classified; every other class never writes upper-case rdata names."""
-    f24 = [f for f in findings if f.get("id") == "F24"]
-    if f24 and c.get("class") == "mixedrd" and _upper_target_with_address(c):
-        return f24[0]
-    return None
